@@ -1857,7 +1857,17 @@ func parseStringLiteralContent(p *parser, s []byte) (result string) {
 			}
 
 			if digitIndex > 0 && valid {
-				builder.WriteRune(r2)
+				// Only Unicode scalar values are valid,
+				// i.e. no surrogates and no values above U+10FFFF.
+				// NOTE: r2 is negative if the eighth digit overflowed the rune
+				if utf8.ValidRune(r2) {
+					builder.WriteRune(r2)
+				} else {
+					p.reportSyntaxError(
+						"invalid Unicode escape sequence: U+%X is not a Unicode scalar value",
+						uint32(r2),
+					)
+				}
 			}
 
 			if r != '}' {
